@@ -72,6 +72,7 @@ func runG07(raw json.RawMessage, w *Writer) {
 			}
 		}
 		wire := [][]int{}
+		heads, tails := []bool{}, []bool{}
 		rxOut := []byte{}
 		rxRes := "ok"
 		r, _ := guard(func() {
@@ -88,6 +89,8 @@ func runG07(raw json.RawMessage, w *Writer) {
 					rxRes = "err"
 					continue
 				}
+				heads = append(heads, rx.IsPartitionHead(q.Payload))
+				tails = append(tails, rx.IsPartitionTail(q.Marker, q.Payload))
 				out, err := rx.Unmarshal(q.Payload)
 				if err != nil {
 					rxRes = "err"
@@ -96,7 +99,7 @@ func runG07(raw json.RawMessage, w *Writer) {
 				rxOut = append(rxOut, out...)
 			}
 		})
-		e := Ev{"ev": "frame", "k": k, "codec": c.Codec, "mtu": c.Mtu, "res": r, "wire": wire, "rx_res": rxRes, "rx_out": ints(rxOut)}
+		e := Ev{"ev": "frame", "k": k, "codec": c.Codec, "mtu": c.Mtu, "res": r, "wire": wire, "rx_res": rxRes, "rx_out": ints(rxOut), "heads": heads, "tails": tails}
 		if c.Codec == "h264" {
 			e["units"], e["obus"] = rawFrames[k], []int{}
 		} else {
